@@ -47,7 +47,7 @@ def lookup(M, w, nbits):
 
 def current_cond(M, row, f):
     if not M.thumb:
-        return f['c'] if 'c' in row.fields else 14
+        return M.word >> 28             # unconditional encodings have cond = 1111, which always passes
     if row.name in ('B_T1', 'B_T3'):
         return f['c']
     it = M.itstate()
@@ -106,9 +106,14 @@ def step(M):
             raise
         M.row = row.name
         cond = current_cond(M, row, f)
+        if row.name.startswith('BKPT'):
+            cond = 14                       # BKPT is unconditional, also inside an IT block
         was_in_it = M.in_it_block()
         passed = cond_pass(cond, *M.flags())
         M.cond_passed = bool(passed)
+        M.cur_cond = cond
+        if not passed and row.name.startswith('UDF'):
+            raise Skip('UDF with failing condition: NOP or Undefined Instruction (IMPLEMENTATION DEFINED)')
         if passed:
             ex(M, ops)
         if not M.branched:
@@ -120,7 +125,12 @@ def step(M):
         M.take_undef()
         return 'undef', str(e)
     except Abort as ab:
-        M.report_abort(ab)
+        try:
+            M.report_abort(ab)
+        except Skip as e:
+            return 'skip', str(e)
+        except NotImpl as e:
+            return 'notimpl', str(e)
         M.take_data_abort(ab)
         return 'abort', ab.kind
     except SvcCall:
